@@ -25,6 +25,7 @@ inductive Eff where
   | insert (rel : String) (ts : List Tuple)
   | delete (rel : String) (t : Tuple)
   | fact (rel : String) (t : Tuple)
+  | factBad (rel : String)                       -- a fact whose arguments contain a variable / placeholder
   | srule (head : String)
   | prule (head : String)
   | query (rel : String) (arity : Nat)
@@ -195,6 +196,7 @@ def applyStmt (s : QState) (text : List Char) (st : Stmt) : Step :=
     let (r, n) := insertNew (relOf kgv rel) ts
     .cont ({ s with w := updKg s.w s.kg fun k => setRel k rel r }.say [s!"ins:{n}:{rel}"])
   | .fact, .fact rel t => .cont ({ s with sfacts := s.sfacts ++ [(rel, t)] }.say ["sfact"])
+  | .fact, .factBad _ => .cont (s.say ["badterm"])                 -- `term_to_value` fails: message, `continue` (2709-2713)
   | .delete, .delete rel t =>
     let old := relOf kgv rel
     let n := if old.contains t then 1 else 0
@@ -440,7 +442,9 @@ def sessionIntercept (w : World) (sraw : Option Sess) (whole : Option Stmt) (cur
     else some ⟨updSess w se.user fun s => { s with rules := s.rules ++ [h] }, .msgs ["srule"] none, [⟨⟨.sessionRule, .srule h⟩, curKg.getD "default"⟩]⟩
   | some se, some ⟨.fact, .fact rel t⟩ =>
     if se.closed then some ⟨w, .err "sessiongone", []⟩
-    else some ⟨updSess w se.user fun s => { s with facts := s.facts ++ [(rel, t)] }, .msgs ["sfact"] none, [⟨⟨.fact, .fact rel t⟩, curKg.getD "default"⟩]⟩
+    else some ⟨updSess w se.user fun s => if s.facts.contains (rel, t) then s else { s with facts := s.facts ++ [(rel, t)] },   -- set per relation (session.rs:187)
+               .msgs ["sfact"] none, [⟨⟨.fact, .fact rel t⟩, curKg.getD "default"⟩]⟩
+  | some _, some ⟨.fact, .factBad _⟩ => some ⟨w, .err "badterm", []⟩   -- `term_to_value(term)?` (4523) precedes the session access
   | some _, some ⟨.sessionRule, _⟩ => some ⟨w, .err "unsupported:session-rule-form", []⟩
   | some _, some ⟨.fact, _⟩ => some ⟨w, .err "unsupported:fact-form", []⟩
   | _, _ => none
